@@ -73,6 +73,17 @@ def panic_sites(F):
             continue
         # message strings of `panic_fmt(Arguments::from_str("..."))`: remember const strings per dest local
         fmt_msgs = {}
+        local_strs = {}
+        aliases = {}
+        for k, v in m.get("str_consts", []):
+            if v.startswith("@"):
+                aliases[k] = v[1:]
+            else:
+                local_strs[k] = v
+        for _ in range(4):
+            for k, v in aliases.items():
+                if k not in local_strs and v in local_strs:
+                    local_strs[k] = local_strs[v]
         for b in m["blocks"]:
             if b["t"] == "Call" and b.get("fn") and b["fn"]["path"].startswith("std::fmt::Arguments::<'a>::"):
                 cs = _const_strs(b["args"])
@@ -90,6 +101,11 @@ def panic_sites(F):
                 cs = _const_strs(b["args"])
                 if cs:
                     msg = cs[0]
+                elif kind == "expect":
+                    for a in b["args"][1:]:
+                        mm = re.match(r"^(?:move|copy) (_\d+)$", a)
+                        if mm and mm.group(1) in local_strs:
+                            msg = local_strs[mm.group(1)]
                 elif kind == "panic":
                     for a in b["args"]:
                         mm = re.match(r"^move (_\d+)$", a)
@@ -109,7 +125,8 @@ def panic_sites(F):
 
 
 def site_key(s):
-    base = "%s|%s|%s" % (s["fn"].qname, s["kind"], s["what"])
+    what = re.sub(r"\{closure@[^}]*\}", "{closure}", s["what"])
+    base = "%s|%s|%s" % (s["fn"].qname, s["kind"], what)
     if s["msg"]:
         base += "|" + s["msg"]
     return base
@@ -203,3 +220,51 @@ def dominators(blocks, entry=0):
                 dom[i] = new
                 changed = True
     return dom
+
+
+def instance_sccs(F):
+    """Non-trivial SCCs of the monomorphic instance call graph (exact callee resolution, library
+    generics followed through their MIR).  Returns a list of sorted lists of instance ids."""
+    g = F.inst_edges
+    index, low, onstack, stack, out = {}, {}, set(), [], []
+    counter = [0]
+    # iterative Tarjan
+    for root in sorted(g):
+        if root in index:
+            continue
+        work = [(root, iter(sorted(g.get(root, ()))))]
+        index[root] = low[root] = counter[0]
+        counter[0] += 1
+        stack.append(root)
+        onstack.add(root)
+        while work:
+            v, it = work[-1]
+            advanced = False
+            for w in it:
+                if w not in index:
+                    index[w] = low[w] = counter[0]
+                    counter[0] += 1
+                    stack.append(w)
+                    onstack.add(w)
+                    work.append((w, iter(sorted(g.get(w, ())))))
+                    advanced = True
+                    break
+                elif w in onstack:
+                    low[v] = min(low[v], index[w])
+            if advanced:
+                continue
+            work.pop()
+            if work:
+                u = work[-1][0]
+                low[u] = min(low[u], low[v])
+            if low[v] == index[v]:
+                comp = []
+                while True:
+                    w = stack.pop()
+                    onstack.discard(w)
+                    comp.append(w)
+                    if w == v:
+                        break
+                if len(comp) > 1 or v in g.get(v, ()):
+                    out.append(sorted(comp))
+    return out
